@@ -136,6 +136,25 @@ def programs_part(ctx, ok_x):
             ctx.broken.append(dict(kind="correspondence", what="model and implementation disagree on a literal program",
                                    detail=surface.to_python(progs[dis[0]])))
     ctx.cov["literal_programs"] = len(progs)
+    # literals beyond the interpreter's int -> str digit limit (open finding: rejected today): if such a program is ever
+    # compiled, the literal table must hold the exact value — every digit, the zeros inside it too
+    huge = []
+    for (x, y, z) in ((10 ** 4000, 10 ** 1000, 0), (3 * 10 ** 2500, 10 ** 2000, 7), (10 ** 4100 + 1, 10 ** 300 + 10 ** 150, 10 ** 200)):
+        huge.append({"stmts": [{"k": "lit", "x": "a", "b": "Int", "v": x}, {"k": "lit", "x": "b", "b": "Int", "v": y}, {"k": "lit", "x": "c", "b": "Int", "v": z},
+                               {"k": "bin", "x": "m", "op": "OMul", "a": "a", "b": "b"}, {"k": "bin", "x": "n", "op": "OAdd", "a": "m", "b": "c"}],
+                     "outs": [("o1", "P0", "n"), ("o2", "P0", "m")], "tags": ["huge-literals"], "dead": False})
+    hres = progrun.run_impl(huge)
+    hout, herr = progrun.eval_over_cases(ctx, "c06_huge", "From NadaV.Gen Require GenScalar.\nFrom NadaV.Spec Require Import FoldSpec FoldProgSpec.\n",
+                                         huge, hres, exprs[:1])
+    if herr:
+        raise RuntimeError("cases c06_huge failed: " + herr[0][1])
+    hbad = hout[exprs[0]]
+    ctx.note(f"validate: {len(huge)} programs folding literals of more than 4300 digits: {sum(1 for r in hres if 'ok' in r)} compiled, {len(hbad)} with an inexact literal table")
+    for i in hbad[:2]:
+        m = hres[i]["ok"]
+        vlib.report_failure(ctx, "C06/program:literal-table-huge", "a folded literal of more than 4300 digits is not recorded with its exact value",
+                            dict(case=dict(kind="program", python_source=surface.to_python(huge[i])[:600] + " ..."),
+                                 observed=dict(literals=[{k: (str(v)[:80] + "...") for k, v in l.items()} for l in m["literals"]][:6])))
     ctx.cov["literal_programs_accepted"] = nacc
 
 
